@@ -444,6 +444,9 @@ func discharge(ob *Obligation, dir string, timeout int, agree bool) {
 	ob.Time += dt
 	if res == "unsat" && !agree {
 		ob.Status, ob.Solver = "proved", solvers[0].name
+		if !keepQueries {
+			os.Remove(file) // disk is limited: only the queries of undischarged obligations are kept
+		}
 		return
 	}
 	type r struct {
@@ -499,7 +502,13 @@ func discharge(ob *Obligation, dir string, timeout int, agree bool) {
 		ob.Status, ob.Solver = "unknown", strings.Join(notes, " ")
 	}
 	ob.SolverOutput = strings.Join(notes, " ")
+	if ob.Status == "proved" && !keepQueries {
+		os.Remove(file)
+	}
 }
+
+// keepQueries (flag -keep): keep the SMT files of discharged obligations too.
+var keepQueries bool
 
 // getModel asks the solver that answered sat for the values of the input terms.
 func getModel(ob *Obligation, file, solver string, timeout int) string {
